@@ -13,6 +13,8 @@
 //!                                             capture list through the public query API, for the merge model
 //!   N <root> <variant> <names> <hex>          multi-layer highlight WITHOUT locals queries + every layer's raw
 //!                                             capture sequence (public query API), for the multi-layer merge model
+//!   K <lang> <names> <hex>                    single layer WITH its locals query (no injections) + the raw
+//!                                             captures classified as the code does, for the locals model
 //! Events are written `S<start>-<end>`, `H<highlight>`, `E`, comma separated.
 use std::collections::BTreeMap;
 use std::io::Write;
@@ -321,7 +323,7 @@ fn local_pairs(ld: &LangDef, src: &[u8]) -> Vec<(usize, usize, usize, usize)> {
     let def_ix = query.capture_index_for_name("local.definition");
     let val_ix = query.capture_index_for_name("local.definition-value");
     let ref_ix = query.capture_index_for_name("local.reference");
-    let mut scopes: Vec<(usize, usize)> = vec![(0, usize::MAX)];
+    let mut scopes: Vec<(usize, usize, bool)> = vec![(0, usize::MAX, false)];
     let mut defs: Vec<(usize, usize, usize, Vec<u8>)> = Vec::new(); // start, end, value_end, name
     let mut refs: Vec<(usize, usize, Vec<u8>)> = Vec::new();
     let mut cursor = QueryCursor::new();
@@ -336,7 +338,13 @@ fn local_pairs(ld: &LangDef, src: &[u8]) -> Vec<(usize, usize, usize, usize)> {
         for c in m.captures {
             let (s, e) = (c.node.start_byte(), c.node.end_byte());
             if Some(c.index) == scope_ix {
-                scopes.push((s, e));
+                let mut inherits = true;
+                for p in query.property_settings(m.pattern_index) {
+                    if p.key.as_ref() == "local.scope-inherits" {
+                        inherits = p.value.as_ref().map_or(true, |v| v.as_ref() == "true");
+                    }
+                }
+                scopes.push((s, e, inherits));
             } else if Some(c.index) == def_ix {
                 if std::str::from_utf8(&src[s..e]).is_ok() {
                     defs.push((s, e, value_end, src[s..e].to_vec()));
@@ -349,8 +357,8 @@ fn local_pairs(ld: &LangDef, src: &[u8]) -> Vec<(usize, usize, usize, usize)> {
     scopes.sort();
     scopes.dedup();
     // innermost scope on the stack when a node starting at p is processed
-    let enclosing = |p: usize| -> Vec<(usize, usize)> {
-        let mut v: Vec<(usize, usize)> = scopes.iter().copied().filter(|&(s, e)| s <= p && p <= e).collect();
+    let enclosing = |p: usize| -> Vec<(usize, usize, bool)> {
+        let mut v: Vec<(usize, usize, bool)> = scopes.iter().copied().filter(|&(s, e, _)| s <= p && p <= e).collect();
         v.sort_by(|a, b| b.0.cmp(&a.0).then(a.1.cmp(&b.1)));
         v
     };
@@ -371,6 +379,9 @@ fn local_pairs(ld: &LangDef, src: &[u8]) -> Vec<(usize, usize, usize, usize)> {
             if let Some(d) = best {
                 pairs.push((*rs, *re, d.0, d.1));
                 break 'scopes;
+            }
+            if !sc.2 {
+                break 'scopes; // a scope that does not inherit hides the outer definitions
             }
         }
     }
@@ -789,6 +800,99 @@ fn emit_multi(w: &mut World, out: &mut impl Write, id: &str, root: usize, varian
     layers.len() > 1
 }
 
+/// Single layer with highlights + locals queries (no injections): real events + the raw captures
+/// classified like `HighlightIter::next` does (pattern range first, then capture name).
+fn emit_locals(w: &mut World, out: &mut impl Write, id: &str, li: usize, names_mode: &str, src: &[u8]) {
+    let ld = &w.langs[li];
+    let all = names_of(&w.langs, 0);
+    let names = pick_names(&all, names_mode);
+    let mut cfg = HighlightConfiguration::new(ld.language.clone(), LANGS[li], &ld.highlights, "", &ld.locals).expect("config");
+    cfg.configure(&names);
+    watch_begin(format!("K {} {names_mode} {}", LANGS[li], hx(src)));
+    let mut evs = Vec::new();
+    let mut err = None;
+    match w.highlighter.highlight(&cfg, src, None, None, |_| None) {
+        Ok(it) => {
+            for e in it {
+                match e {
+                    Ok(e) => evs.push(e),
+                    Err(e) => {
+                        err = Some(format!("{e}"));
+                        break;
+                    }
+                }
+            }
+        }
+        Err(e) => err = Some(format!("{e}")),
+    }
+    let locals_patterns = if ld.locals.trim().is_empty() { 0 } else { Query::new(&ld.language, &ld.locals).expect("locals query").pattern_count() };
+    let mut parser = Parser::new();
+    parser.set_language(&ld.language).unwrap();
+    let tree = parser.parse(src, None).expect("parse");
+    let query = &cfg.query;
+    let scope_ix = query.capture_index_for_name("local.scope");
+    let def_ix = query.capture_index_for_name("local.definition");
+    let val_ix = query.capture_index_for_name("local.definition-value");
+    let ref_ix = query.capture_index_for_name("local.reference");
+    let cap_names = query.capture_names();
+    let mut interned: Vec<Vec<u8>> = Vec::new();
+    let mut intern = |b: &[u8]| -> usize {
+        if let Some(i) = interned.iter().position(|x| x == b) {
+            i
+        } else {
+            interned.push(b.to_vec());
+            interned.len() - 1
+        }
+    };
+    let mut caps = Vec::new();
+    let mut cursor = QueryCursor::new();
+    let mut it = cursor.captures(query, tree.root_node(), src);
+    while let Some((m, ci)) = it.next() {
+        let c = m.captures[*ci];
+        let (s, e, nid) = (c.node.start_byte(), c.node.end_byte(), c.node.id());
+        let text = &src[s.min(src.len())..e.min(src.len())];
+        let ok = std::str::from_utf8(text).is_ok() as u8;
+        let kind = if m.pattern_index < locals_patterns {
+            if Some(c.index) == scope_ix {
+                let mut inherits = true;
+                for p in query.property_settings(m.pattern_index) {
+                    if p.key.as_ref() == "local.scope-inherits" {
+                        inherits = p.value.as_ref().map_or(true, |v| v.as_ref() == "true");
+                    }
+                }
+                format!("S{}", inherits as u8)
+            } else if Some(c.index) == def_ix {
+                let mut value_end = 0usize;
+                for c2 in m.captures {
+                    if Some(c2.index) == val_ix {
+                        value_end = c2.node.end_byte();
+                    }
+                }
+                if std::env::var("VERIF_C17_DEBUG").is_ok() {
+                    eprintln!("def capture: match has {} captures, value_ix={:?}, indices={:?}", m.captures.len(), val_ix, m.captures.iter().map(|c| c.index).collect::<Vec<_>>());
+                }
+                format!("D{}:{}:{}", intern(text), value_end, ok)
+            } else if Some(c.index) == ref_ix {
+                format!("R{}:{}", intern(text), ok)
+            } else {
+                "O".to_string()
+            }
+        } else {
+            let nonlocal = query.property_predicates(m.pattern_index).iter().any(|(p, positive)| !*positive && p.key.as_ref() == "local");
+            let h = highlight_index(cap_names[c.index as usize], &names);
+            format!("H{}:{}", h.map(|x| x.to_string()).unwrap_or("n".into()), nonlocal as u8)
+        };
+        caps.push(format!("{s}-{e}-{nid}-{kind}"));
+    }
+    watch_end();
+    writeln!(out, "spec {id} K {} {names_mode} {}", LANGS[li], hx(src)).unwrap();
+    writeln!(out, "case {id}\nsrc {}\nevs {}", hx(src), evs_to_string(&evs)).unwrap();
+    if let Some(e) = &err {
+        writeln!(out, "error {}", e.replace(' ', "_")).unwrap();
+    }
+    writeln!(out, "lcaps {}\nrun lmerge", if caps.is_empty() { "-".into() } else { caps.join(",") }).unwrap();
+}
+
 // ---------------------------------------------------------------------------------------------
 // generators
 /// Long inputs: `prefix` ASCII filler bytes, then `mid`, then a short tail.  The filler has no
@@ -936,6 +1040,15 @@ fn gen_stmt_locals(rng: &mut Rng, depth: usize) -> String {
             2 => s.push_str(&format!("{w}({}, 'q{}');\n", rng.pick(&WORDS), rng.pick(&WORDS))),
             3 if depth > 0 => s.push_str(&format!("if {w} < {} {{\n{}}} else {{ return {w}; }}\n", rng.below(9), gen_stmt_locals(rng, depth - 1))),
             4 if depth > 0 => s.push_str(&format!("while {w} {{ {} }}\n", gen_stmt_locals(rng, depth - 1))),
+            5 if rng.chance(1, 2) => {
+                // boundary shapes: a reference that starts exactly where a scope ends, and a
+                // reference inside / right after the value of a re-definition
+                match rng.below(3) {
+                    0 => s.push_str(&format!("{{ {w} = {}; }}{w};\n", rng.below(9))),
+                    1 => s.push_str(&format!("{w} = 1;\n{w} = {w} + {w};{w};\n")),
+                    _ => s.push_str(&format!("{{{w} = 2;{{ {w}; }}}}{w};\n")),
+                }
+            }
             _ => s.push_str(&format!("return {w}; // {}\n", rng.pick(&WORDS))),
         }
     }
@@ -991,7 +1104,16 @@ fn gen_host(gg: &gen::GrammarGen, rng: &mut Rng, depth: usize) -> String {
         match rng.below(9) {
             0 => s.push_str(&format!("{w} ")),
             1 => s.push_str(&format!("{} ", rng.below(1000))),
-            2 => s.push_str(&format!("let {w} = {}\n", rng.below(50))),
+            2 => {
+                match rng.below(4) {
+                    // value ends exactly where the reference starts; scope ends exactly where a reference starts;
+                    // two definitions of one name with different highlights in one scope
+                    0 => s.push_str(&format!("let {w} = f({}){w} ", rng.below(9))),
+                    1 => s.push_str(&format!("g(let {w} = 1){w} ")),
+                    2 => s.push_str(&format!("{w}(let {w} = 1 {w}) {w} ")),
+                    _ => s.push_str(&format!("let {w} = {}\n", rng.below(50))),
+                }
+            }
             3 if depth > 0 => s.push_str(&format!("{w}({} {})\n", gen_host(gg, rng, depth - 1), rng.pick(&WORDS))),
             4 => s.push_str(&format!("# note {w}\n")),
             5 if depth > 0 => s.push_str(&format!("$tmpl`{}` ", gen_tmpl(gg, rng, depth - 1).replace('`', "'"))),
@@ -1084,6 +1206,11 @@ fn run_spec(w: &mut World, out: &mut impl Write, id: &str, fields: &[&str]) -> b
             emit_multi(w, out, id, r, variant.parse().unwrap_or(0), names, &unhx(s));
             true
         }
+        ["K", lang, names, s] => {
+            let li = lang_index(lang).expect("language");
+            emit_locals(w, out, id, li, names, &unhx(s));
+            true
+        }
         ["M", lang, names, s] => {
             let li = lang_index(lang).expect("language");
             emit_merge(w, out, id, li, names, &unhx(s));
@@ -1111,7 +1238,7 @@ fn main() {
         let specs = std::fs::read_to_string(&args[3]).unwrap();
         for (i, line) in specs.lines().enumerate() {
             let f: Vec<&str> = line.split_whitespace().collect();
-            let f = if !f.is_empty() && !["L", "R", "H", "M", "N"].contains(&f[0]) { &f[1..] } else { &f[..] };
+            let f = if !f.is_empty() && !["L", "R", "H", "M", "N", "K"].contains(&f[0]) { &f[1..] } else { &f[..] };
             if run_spec(&mut w, &mut out, &format!("r{i}"), f) {
                 n += 1;
             }
@@ -1353,6 +1480,35 @@ fn main() {
         if emit_multi(&mut w, &mut out, &format!("N{i}"), root, variant, &names, &doc) {
             multi += 1;
         }
+        n += 1;
+    }
+    // 7. single layer with its locals query: real events vs the locals model
+    let nk = if thorough { 3000 } else { 300 };
+    for i in 0..nk {
+        let li = if i % 2 == 0 { 0 } else { 2 };
+        let doc: Vec<u8> = if li == 0 {
+            if rng.chance(1, 4) {
+                let b = *rng.pick(&[20usize, 60, 150]);
+                gen_stmt(&stmt_gg, &mut rng, b)
+            } else {
+                gen_stmt_locals(&mut rng, 3).into_bytes()
+            }
+        } else {
+            gen_host(&stmt_gg, &mut rng, 3).into_bytes()
+        };
+        let level = match rng.below(8) {
+            0 => 2,
+            1 => 3,
+            _ => 0,
+        };
+        let mut doc = spice_doc(&mut rng, doc, level);
+        doc.truncate(6000);
+        let names = match rng.below(6) {
+            0 => "generic".to_string(),
+            1 | 2 => format!("sub{}", rng.below(1000)),
+            _ => "all".to_string(),
+        };
+        emit_locals(&mut w, &mut out, &format!("K{i}"), li, &names, &doc);
         n += 1;
     }
     out.flush().unwrap();
